@@ -241,7 +241,7 @@ CLAIMED = {
              "and Manual (own LTS), Strand (from C07) and FairThreadPool (from C08). Tied to the code by program correspondence: C02's "
              "typed table with instrumented executor wrappers (per-job Submit/Call/Drop counters, executor stamp around Call/Drop, reject "
              "from the k-th Submit) over programs x executor assignment x every rejection position, coroutine co_await On sources, "
-             "Detach/Subscribe (11k cases quick / 122k thorough); oracle written from the property text.",
+             "Detach/Subscribe (11k cases quick / 122k thorough); oracle written from the property text. Lazy Task start forms ToFuture(e)/Detach(e)/Cancel are modelled (dlazy/dstart, ten c05_lazy_* theorems) and driven; the C07 and C08 explorations run here too and their Call/Drop-count verdicts count for C05.",
         design="DESIGN.md §5 C05, §10",
         technique="Coq refinement proofs over the C02 semantics + program correspondence with instrumented executors",
         note="Trusted: as C02. Shipped configuration with coroutines (BC), single thread; Stop-vs-Submit interleavings are C07/C08's (explored "
